@@ -61,6 +61,15 @@ CLAIMS = {
              "semicolons under scoped override and environment variable); the script's table summary must be accepted by the ideal fold "
              "of Script.tla over the statements analysed alone, and its column pairs must equal those of the combined solo holders.",
         note="trusted: TLC, the lexeme renderer, sqlparse/sqlfluff as parsers; statements compared modulo comments, whitespace and trailing semicolons"),
+    "C12": dict(
+        design="5/C12, 3.4",
+        technique="TLA+ model checking (TLC) of Pipeline.tla over interleavings of runs, providers and fault points + replay of TLC histories with real threads pre-empted per statement + TLC trace validation (Trace_Pipeline)",
+        text="TLC checks, for every interleaving of 2-3 runs (scripts of create/use/unparsable/unsupported statements, own providers re-used "
+             "sequentially, the shared default provider, silent mode, a provider fault on the j-th lookup), that a run's outcome and "
+             "wildcard expansions equal those of the run alone on a fresh provider and that a provider's session is empty outside runs; "
+             "histories printed by TLC are replayed with real LineageRunner threads released one statement at a time (pre-emption before "
+             "each analyse call and before deregistration) and every recorded history is decided by Trace_Pipeline against the ideal layer.",
+        note="trusted: TLC, class-level tap wrappers in the harness process, the projection of a run (exception class, target columns per statement, provider answers through its public API)"),
 }
 
 NOT_YET = "check not built yet in this round; planned as described in DESIGN.md section 5"
